@@ -226,3 +226,8 @@ package prefilter
 //@   props C16 C07
 //@   requires tp != nil && tp.Tracker != nil && start >= 0 && tp.Tracker.candidates < 18446744073709551615
 //@   modifies tp.Tracker.active, tp.Tracker.candidates, tp.Tracker.confirms
+
+//@ uninterpreted spec func pfIsComplete(p Prefilter) bool
+//@ trusted func (Prefilter).IsComplete
+//@   opt recv=p
+//@   ensures result == pfIsComplete(p)
